@@ -84,6 +84,10 @@ pub fn handshake(c: &Case, out: &mut Outcome) -> Option<(Ntlm, Vec<u8>)> {
         match r {
             Res::Ok(_) => {}
             Res::Err(err) => {
+                if e.flags & ntlm::MANDATORY != ntlm::MANDATORY {
+                    out.label("reduced-flags-refused");
+                    return None;
+                }
                 out.fail("ntlm:challenge-rejected", format!("conforming earlier CHALLENGE #{} rejected: {}; {:?}", i, err, e));
                 return None;
             }
@@ -115,6 +119,11 @@ pub fn handshake(c: &Case, out: &mut Outcome) -> Option<(Ntlm, Vec<u8>)> {
     let auth = match r {
         Res::Ok(v) => v,
         Res::Err(e) => {
+            if c.challenge.flags & ntlm::MANDATORY != ntlm::MANDATORY {
+                // a client may insist on the session security it asked for; nothing to verify then
+                out.label("reduced-flags-refused");
+                return None;
+            }
             out.fail("ntlm:challenge-rejected", format!("conforming CHALLENGE rejected: {}; {:?}", e, c.challenge));
             return None;
         }
@@ -459,6 +468,7 @@ pub fn check(rep: &Report) {
     rep.list("large-fields", large, run);
     rep.random("tokens", rep.tier.n(300_000, 6_000_000), 200, decode, run);
     rep.require("tokens", "from-hash", 2000);
+    rep.require("tokens", "reduced-flags", 2000);
     rep.require("tokens", "version-flag", 2000);
     rep.require("tokens", "non-ascii", 2000);
     rep.require("tokens", "re-authentication", 2000);
